@@ -32,7 +32,7 @@ EPS = float(np.finfo(np.float64).eps)
 
 # ====================================================================================== T-const
 KEEP = {'_eps', 'tol', 'np', 'base', 'math', 'self', 'abs', 'iszerovec', 'iszero', 'ishom', 'isrot', 'ishom2', 'isrot2', 'norm', 'None',
-        'unitvec', 'getvector'}
+        'unitvec', 'getvector', '_symbolics', 'isinstance', 'sympy'}
 
 
 class _Norm(ast.NodeTransformer):
@@ -53,7 +53,9 @@ def _shape(node):
 
 # the skeleton the hand models in coq/theories/Model/C14_Norm.v were written against: (file, qualified name) -> ordered tests
 SKELETON = {
-    ('base/vectors.py', 'unitvec'): ['if:_ >= K * _eps'],
+    # first test: symbolic length (fix 2d89a18) -- unreachable for float input and switched off in the harness process
+    # by lib.concolic.install(); outside this model (symbolic execution is C16's subject)
+    ('base/vectors.py', 'unitvec'): ['if:_symbolics and isinstance(_, sympy.Expr) and (not _.is_number)', 'if:_ >= K * _eps'],
     ('base/vectors.py', 'unitvec_norm'): ['if:_ >= K * _eps'],
     ('base/vectors.py', 'iszerovec'): ['ret:np.linalg.norm(_) < tol * _eps'],
     ('base/vectors.py', 'iszero'): ['ret:abs(_) < tol * _eps'],
@@ -199,13 +201,20 @@ def read_consts(ctx):
 
 
 def _extract(funcs, T):
-    def cmp_thr(fname, i=0):
-        node = T[fname][i][2]
-        while isinstance(node, ast.UnaryOp) and isinstance(node.op, ast.Not):    # `not (n < thr)`: the operator is tied by the bridge
-            node = node.operand
-        if not isinstance(node, ast.Compare):
-            raise ConstError(f"{fname}: test {i} is not a comparison")
-        return _thr_of_compare(funcs[fname], node)
+    def cmp_thr(fname):
+        """the threshold of the ONE test of the function that compares a quantity with a literal/tol/_eps expression"""
+        found = []
+        for _, _, node in T[fname]:
+            while isinstance(node, ast.UnaryOp) and isinstance(node.op, ast.Not):    # `not (n < thr)`: the operator is tied by the bridge
+                node = node.operand
+            if isinstance(node, ast.Compare):
+                try:
+                    found.append(_thr_of_compare(funcs[fname], node))
+                except ConstError:
+                    pass
+        if len(found) != 1:
+            raise ConstError(f"{fname}: expected exactly one threshold comparison, found {len(found)}")
+        return found[0]
     th = {}
     th['unitvec'] = cmp_thr('unitvec')
     th['unitvec_norm'] = cmp_thr('unitvec_norm')
